@@ -11,6 +11,8 @@
 //!   calls as exactly the concatenation of the commands' meanings (theorem C05_stream).
 //! Rust-side oracles: no panic / no error on an infallible writer; in 256-colour mode every selected
 //! palette index lies in 16..=255 (cube and grey ramp, C20).
+//! Sinks: `Vec`; a sink failing after k bytes (`Limited`); short-writing and `Interrupted`-reporting sinks
+//! (`Choppy`), chosen by position in the stream — the bytes that ARRIVE are judged.
 //! `VERIF_REPLAY`: only the recorded command / stream is re-run, through the real encoder and both lines.
 //!
 //! INDEPENDENCE OF THE EXPECTATION. Every command is generated as RAW pieces (`Spec`: underline style
@@ -97,6 +99,40 @@ impl Write for Limited {
                 Ok(n)
             }
         }
+    }
+    fn flush(&mut self) -> std::io::Result<()> {
+        Ok(())
+    }
+}
+
+/// The sink of a call that must succeed, chosen deterministically from the position in the stream (so a
+/// replay drives the same sinks): a plain `Vec`-like sink, a SHORT-WRITING sink (accepts at most `max`
+/// bytes per `write` call — `write_all` / `write!` have to loop), or a sink that additionally answers
+/// every other call with `ErrorKind::Interrupted` (which `write_all` has to retry). All bytes must arrive.
+struct Choppy {
+    out: Vec<u8>,
+    max: usize,
+    interrupt: bool,
+    calls: usize,
+}
+impl Choppy {
+    fn for_index(i: usize, n: usize) -> Choppy {
+        match (i + n) % 4 {
+            2 => Choppy { out: Vec::new(), max: 1 + i % 3, interrupt: false, calls: 0 },
+            3 => Choppy { out: Vec::new(), max: 1 + i % 5, interrupt: true, calls: 0 },
+            _ => Choppy { out: Vec::new(), max: usize::MAX, interrupt: false, calls: 0 },
+        }
+    }
+}
+impl Write for Choppy {
+    fn write(&mut self, buf: &[u8]) -> std::io::Result<usize> {
+        self.calls += 1;
+        if self.interrupt && self.calls % 2 == 1 {
+            return Err(std::io::Error::from(std::io::ErrorKind::Interrupted));
+        }
+        let n = self.max.min(buf.len());
+        self.out.extend_from_slice(&buf[..n]);
+        Ok(n)
     }
     fn flush(&mut self) -> std::io::Result<()> {
         Ok(())
@@ -645,8 +681,9 @@ fn corner_cmds() -> Vec<Spec> {
 
 /// Rust-side oracle on the implementation's bytes: in 256-colour mode every indexed colour selection
 /// names an entry of the colour cube or the grey ramp (16..=255); C20 decides which one.
-fn palette_range_failures(depth: ColorDepth, bytes: &[u8]) -> Option<u64> {
-    if depth != ColorDepth::EightBit {
+fn palette_range_failures(caps_tok: &str, bytes: &[u8]) -> Option<u64> {
+    // the capability token is written by the harness (`E` = 256 colours), not read back from the crate value
+    if !caps_tok.starts_with('E') {
         return None;
     }
     sgr_params(bytes)
@@ -857,13 +894,27 @@ impl Run {
                 if item.spec.in_domain() {
                     out.oracle(&format!("c05 check {caps_tok} {hx} {tok}"), "ok");
                 }
-                if let Some(n) = palette_range_failures(caps.depth, &bytes) {
+                if let Some(n) = palette_range_failures(caps_tok, &bytes) {
                     out.fail(
                         "256-colour mode selects a palette index outside 16..=255",
                         json!({"caps": caps_tok, "cmd": tok}),
                         json!("16..=255"),
                         json!(n),
                     );
+                }
+                // the same command into a short-writing and into an interrupting sink (fresh encoders):
+                // exactly the same bytes must arrive, without error
+                for kind in [2usize, 3] {
+                    let mut w = Choppy::for_index(kind + 4 * (bytes.len() % 7), 0);
+                    let r = guarded(|| TTYEncoder::new(caps.clone()).encode(&mut w, item.cmd.clone()));
+                    if !matches!(r, Ok(Ok(()))) || w.out != bytes {
+                        out.fail(
+                            "a sink that accepts few bytes per write / reports Interrupted receives different bytes or an error",
+                            json!({"caps": caps_tok, "cmd": tok, "max_per_write": w.max, "interrupting": w.interrupt}),
+                            json!(hx),
+                            json!(format!("{}{}", hex(&w.out), if matches!(r, Ok(Ok(()))) { "" } else { " + error/panic" })),
+                        );
+                    }
                 }
                 if out.evaluations % 4001 == 1 {
                     out.sample(json!({"caps": caps_tok, "cmd": tok, "bytes": String::from_utf8_lossy(&bytes)}));
@@ -900,8 +951,17 @@ impl Run {
         let mut good_cmds: Vec<String> = Vec::new();
         let mut all_in_domain = true;
         for (i, item) in items.iter().enumerate() {
-            let mut w = Limited { out: Vec::new(), room: item.room };
-            let res = guarded(|| encoder.encode(&mut w, item.cmd.clone()));
+            // a call with room goes to a sink that fails after `room` bytes; the others to a plain, a
+            // short-writing or an interrupting sink by position (all bytes must arrive: model room = none)
+            let mut lim = Limited { out: Vec::new(), room: item.room };
+            let mut chop = Choppy::for_index(i, items.len());
+            let res = if item.room.is_some() {
+                guarded(|| encoder.encode(&mut lim, item.cmd.clone()))
+            } else {
+                out.hist(if chop.interrupt { "stream-sink-interrupting" } else if chop.max != usize::MAX { "stream-sink-short" } else { "stream-sink-plain" });
+                guarded(|| encoder.encode(&mut chop, item.cmd.clone()))
+            };
+            let w = if item.room.is_some() { lim.out } else { chop.out };
             match res {
                 Err(()) => {
                     out.corr(&format!("c05 stream {caps_tok} {text}"), "panic");
@@ -923,9 +983,9 @@ impl Run {
                             json!("Err"),
                         );
                     }
-                    answer.push(format!("{}{}", hex(&w.out), if ok { "" } else { "!" }));
+                    answer.push(format!("{}{}", hex(&w), if ok { "" } else { "!" }));
                     if ok {
-                        good_bytes.extend_from_slice(&w.out);
+                        good_bytes.extend_from_slice(&w);
                         good_cmds.push(item.tok.clone());
                         all_in_domain &= item.spec.in_domain();
                     } else {
@@ -939,7 +999,7 @@ impl Run {
             // after `##` (ignored by the Lean side): the whole stream incl. failed calls, for replay
             out.oracle(&format!("c05 scheck {caps_tok} {} {} ## {text}", hex(&good_bytes), good_cmds.join(" | ")), "ok");
         }
-        if let Some(n) = palette_range_failures(caps.depth, &good_bytes) {
+        if let Some(n) = palette_range_failures(caps_tok, &good_bytes) {
             out.fail(
                 "256-colour mode selects a palette index outside 16..=255",
                 json!({"caps": caps_tok, "stream": text}),
